@@ -133,6 +133,7 @@ type e2eSrv struct {
 	streamIn map[int][]string // stream id -> digests of messages the handler read
 	handlers int32            // stream handlers currently running
 	hExit    map[int]string
+	foreign  []int // handlers that were entered with argument bytes their request never carried
 }
 
 type E2E struct{ s *e2eSrv }
@@ -142,8 +143,18 @@ func (h *E2E) handle(method string, data []byte) ([]byte, error) {
 	if len(data) >= 8 {
 		id = int(binary.BigEndian.Uint64(data[:8]))
 	}
+	foreign := false
+	for i := 16; i < len(data); i++ {
+		if data[i] != byte(id)^byte(i*13) {
+			foreign = true // bytes that the request with this id never carried
+			break
+		}
+	}
 	h.s.mu.Lock()
 	h.s.execs = append(h.s.execs, execRec{id: id, method: method, dig: digest(data), kept: data})
+	if foreign {
+		h.s.foreign = append(h.s.foreign, id)
+	}
 	h.s.mu.Unlock()
 	if len(data) >= 15 && data[12] == kFail {
 		return nil, errors.New(errText(id, int(binary.BigEndian.Uint16(data[13:15]))))
@@ -503,6 +514,12 @@ func runE2E(cfg e2eCfg, ops []e2eOp) *e2eRun {
 	case <-time.After(25 * time.Second):
 		run.problems = append(run.problems, connVerdict{"C03", "no-caller-hangs", "C03/e2e-hang/" + cfg.Net, "the workload did not finish within 25 s (a caller is blocked)"})
 	}
+	// C04: a handler is invoked with the arguments its request carried
+	srv.mu.Lock()
+	if len(srv.foreign) > 0 {
+		run.problems = append(run.problems, connVerdict{"C04", "arguments-as-sent", fmt.Sprintf("C04/e2e-foreign-arguments/nocopy%d", b2i(cfg.SNoCopy)), fmt.Sprintf("the handlers of %d request(s) (first: id %d) were entered with argument bytes that request never carried", len(srv.foreign), srv.foreign[0])})
+	}
+	srv.mu.Unlock()
 	// C11: re-hash what user code retained, after all the traffic
 	srv.mu.Lock()
 	for _, e := range srv.execs {
@@ -523,6 +540,7 @@ func runE2E(cfg e2eCfg, ops []e2eOp) *e2eRun {
 		bad := false
 		for i, m := range o.smsgs {
 			if digest(m) != o.sdigs[i] {
+				run.problems = append(run.problems, connVerdict{"C09", "stream-message-intact", "C09/stream-message-corrupted-after-delivery/" + cfg.Body, fmt.Sprintf("message %d delivered on the stream of op %d no longer equals what the handler wrote (it changed after delivery)", i, o.id)})
 				run.problems = append(run.problems, connVerdict{"C11", "stream-message-stable", "C11/stream-message-mutated/" + cfg.Body, fmt.Sprintf("message %d read from the stream of op %d (ReadMessage with no buffer) changed after later traffic", i, o.id)})
 				bad = true
 				break
@@ -877,6 +895,10 @@ func checkE2E(run *e2eRun) []connVerdict {
 			wantExec = 0
 		}
 		n := execs[o.ID]
+		if n >= 1 && got.out != want && (got.out == "shutdown" || strings.HasPrefix(got.out, "hang") || got.out == "timeout") {
+			// the connection was never cut during the workload: a request that was executed is owed its response
+			out = append(out, connVerdict{"C04", "answered-exactly-once", "C04/e2e-executed-but-unanswered/" + cfg.Via, fmt.Sprintf("op %d (size=%d reply=%d) was executed %d time(s) but its caller never got the response (outcome %s, want %s)", o.ID, o.Size, o.ReplyLen, n, got.out, want)})
+		}
 		if n > wantExec || (got.out == "ok" && n != 1) {
 			out = append(out, connVerdict{"C04", "executed-exactly-once", "C04/e2e-executions/" + cfg.Via, fmt.Sprintf("op %d completed with %s and was executed %d times", o.ID, got.out, n)})
 		}
